@@ -88,6 +88,16 @@ def job(cfg):
                 count('C17', 'sat' if r == 'sat' else 'unsat', dt)
                 if r == 'sat': res['findings'].append(finding(fname, 'C17', 'Q_rej', 'exception %s set but a result is returned' % (p['exc'],), m, sc, mask))
             noovf = [z3.Not(o) for o in p['ovf']]
+            if not p['events']:
+                # Q_zero: a successful return without any BLAS call is legitimate only where the reference routine
+                # itself has nothing to do (documented zero-dimension handling)
+                qc = quick_return_condition(fname, p['mem'])
+                if qc is None:
+                    res['unsupported'].append('no quick-return rule for wrapper %s' % fname)
+                else:
+                    r, m, dt = query(p['pc'], noovf + [z3.Not(qc)])
+                    count('C17', r if r in ('unsat', 'sat') else 'unknown', dt)
+                    if r == 'sat': res['findings'].append(finding(fname, 'C17', 'Q_zero', 'returns successfully without calling BLAS although the reference operation is not a no-op (zero-dimension handling)', m, sc, mask, key='%s:zero-dim' % fname))
             for ev in p['events']:
                 res['events'] += 1
                 base, es = B.base_name(ev.name)
@@ -152,8 +162,16 @@ def job(cfg):
                 small = [z3.And(M2.nrows <= 64, M2.ncols <= 64) for M2 in sc.mats.values()]
                 for arr, mname, ok, okp in per:
                     wkey = '%s:%s:int-overflow' % (fname, mname)
+                    res.setdefault('pairs', {})[wkey] = res.get('pairs', {}).get(wkey, 0) + 1
                     if wkey in wrap_found: continue
-                    r, m, dt = query(p['pc'], small + [z3.Not(ok)])
+                    # prefer a non-degenerate instance (non-unit diagonal, dimensions >= 2, nonzero scalars) so that
+                    # the reference routine really touches the array; fall back to any instance
+                    hints = []
+                    for nm_, lo_ in (('N', 2), ('M', 2), ('K', 1)):
+                        if nm_ in a: hints.append(a[nm_] >= lo_)
+                    if 'DIAG' in a: hints.append(a['DIAG'] == ord('N'))
+                    r, m, dt = query(p['pc'], small + hints + [z3.Not(ok)])
+                    if r != 'sat': r, m, dt = query(p['pc'], small + [z3.Not(ok)])
                     count('C19', r if r in ('unsat', 'sat') else 'unknown', dt)
                     if r == 'sat':
                         wrap_found.add(wkey)
@@ -162,6 +180,23 @@ def job(cfg):
                     res['sample'] = {'wrapper': fname, 'event': ev.name, 'formals': formals, 'actuals': [str(x)[:80] for x in ev.args], 'path_constraints': len(p['pc'])}
     res['wall'] = round(time.time() - t0, 1)
     return res
+
+QUICK = {  # wrapper -> locals whose vanishing makes the reference operation a no-op ('any' of them == 0 / <= 0)
+    'swap': ['n'], 'scal': ['n'], 'copy': ['n'], 'axpy': ['n'], 'dot': ['n'], 'dotu': ['n'], 'nrm2': ['n'], 'asum': ['n'], 'iamax': ['n'],
+    'gemv': ['m', 'n'], 'gbmv': ['m', 'n'], 'symv': ['n'], 'hemv': ['n'], 'sbmv': ['n'], 'hbmv': ['n'], 'trmv': ['n'], 'tbmv': ['n'], 'trsv': ['n'], 'tbsv': ['n'],
+    'ger': ['m', 'n'], 'geru': ['m', 'n'], 'syr': ['n'], 'her': ['n'], 'syr2': ['n'], 'her2': ['n'],
+    'gemm': ['m', 'n'], 'symm': ['m', 'n'], 'hemm': ['m', 'n'], 'syrk': ['n'], 'herk': ['n'], 'syr2k': ['n'], 'her2k': ['n'], 'trmm': ['m', 'n'], 'trsm': ['m', 'n'],
+}
+def quick_return_condition(fname, mem):
+    import z3
+    from vp.llsym.exec import is_conc
+    if fname not in QUICK: return None
+    terms = []
+    for nm in QUICK[fname]:
+        v = mem.get(('a:%' + nm, 0))
+        if v is None: return None
+        terms.append((z3.IntVal(v) if is_conc(v) else v) <= 0)
+    return z3.Or(*terms)
 
 def finding(fname, prop, kind, text, model, sc, mask, key=None):
     return {'fn': fname, 'prop': prop, 'kind': kind, 'text': text, 'key': key or ('%s:%s' % (fname, kind)), 'call': sc.render_call(fname, model), 'mask': mask}
@@ -254,9 +289,15 @@ def replay_call(callspec, timeout=300):
         r = subprocess.run(cmd, capture_output=True, text=True, timeout=timeout, env=env)
     except subprocess.TimeoutExpired:
         return None, 'valgrind timed out'
-    if r.returncode == 97 or 'Invalid read' in r.stderr or 'Invalid write' in r.stderr:
-        m = re.search(r'(Invalid (?:read|write) of size \d+)', r.stderr)
-        return 'memcheck: %s in %s' % (m.group(1) if m else 'error', callspec['call']), None
+    # memcheck reports are split into blocks; blocks that come from the dynamic loader (ld.so reads a few bytes
+    # past short strings while resolving rpaths - present in every run) are noise, not evidence
+    blocks = re.split(r'\n==\d+== \n', r.stderr)
+    for b in blocks:
+        m = re.search(r'(Invalid (?:read|write) of size \d+|Process terminating with default action of signal \d+)', b)
+        if not m: continue
+        if 'dl-load.c' in b or '_dl_' in b or 'dl-open.c' in b: continue
+        where = re.search(r'(?:at|by) 0x[0-9A-F]+: (\w+) \(', b)
+        return 'memcheck: %s in %s during %s' % (m.group(1), where.group(1) if where else '?', callspec['call']), None
     if r.returncode < 0 or r.returncode in (139, 134):
         return 'fatal signal (rc %d) in %s' % (r.returncode, callspec['call']), None
     return None, 'no memory error observed (%s)' % (r.stdout.strip()[-40:])
@@ -289,7 +330,7 @@ def main(tier, pid='C17'):
         results = common.run_jobs('vp.checks.c17', 'job', cfgs)
         known = common.known_findings(pid)
         violations, known_hits, herr, inconc = [], [], [], []
-        paths = events = bq = 0; groups = {}
+        paths = events = bq = 0; groups = {}; allpairs = set()
         for r in results:
             if not r['ok']:
                 herr.append('%s: %s' % (r['cfg']['fn'], r['err'])); continue
@@ -301,6 +342,7 @@ def main(tier, pid='C17'):
             ev.solver_s += res['solver_s']
             if res['sample']: ev.sample(res['sample'], cap=5)
             for u in res['unsupported']: herr.append('%s: %s' % (res['fn'], u))
+            for wk in res.get('pairs', {}): allpairs.add('blas.' + wk)
             for f in res['findings']:
                 if f['prop'] != pid: continue
                 groups.setdefault('blas.' + f['key'], []).append(f)
@@ -316,12 +358,13 @@ def main(tier, pid='C17'):
                     rep, why = replay_call(f2['call'])
                     if rep: break
             if rep: violations.append((k, rp, '%s -> %s' % (f['text'], rep)))
-            elif f['kind'] == 'Q_ptr' or f['kind'] == 'Q_rej':
+            elif f['kind'] in ('Q_ptr', 'Q_rej', 'Q_zero'):
                 # wrong-but-in-bounds addressing does not show in memcheck: report with the rendered call
                 violations.append((k, rp, '%s (call: %s; not observable as a memory error: %s)' % (f['text'], (f['call'] or {}).get('call'), why)))
             else:
                 herr.append('%s: counterexample %s - %s' % (k, (f['call'] or {}).get('call'), why))
         ev.extra['finding_keys'] = sorted(groups)
+        ev.extra['wrapper_matrix_pairs'] = sorted(allpairs)
         ev.extra['known_keys_hit'] = len(known_hits)
         ev.cov.update({'states': max(1, paths), 'transitions': max(1, ev.obl['total']), 'traces_validated_against_impl': 0,
                        'functions_encoded': ['blas.c: ' + ', '.join(sorted(names))], 'blas_call_events_checked': events, 'branch_queries': bq,
